@@ -1,7 +1,7 @@
 (* C15_Props.v — the property theorems of C15 and nothing else.
    Each is closed by `exact <lemma>` and followed by Print Assumptions. *)
 From Coq Require Import Permutation.
-From V Require Import C15_Spec C15_SpecL2 C15_SpecL3 C15_Proofs C15_ProofsL2b C15_ProofsL3 C15_ProofsL3b.
+From V Require Import C15_Spec C15_SpecL2 C15_SpecL3 C15_Proofs C15_ProofsL2b C15_ProofsL3 C15_ProofsL3b C15_Consts C15_Cfg.
 Open Scope N_scope.
 
 (* ---- L1: transparency.  Whatever state the tracer is in (any conn value, reachable or not), whatever
@@ -380,4 +380,81 @@ Example ex_spec_frames :
   split_frames 30 ([0; 0; 1; 1; 1; 0; 0; 0; 1; 97] ++ [0; 0; 0; 4; 1; 0; 0; 0; 0] ++ [0; 0; 5; 0]) =
   [[0; 0; 1; 1; 1; 0; 0; 0; 1; 97]; [0; 0; 0; 4; 1; 0; 0; 0; 0]] /\
   spec_frames ex_dec true (bs "GET / HTTP/1.1" ++ preface) = [].
+Proof. vm_compute. repeat split. Qed.
+
+(* ---- the configuration of the HPACK decoders (TracingHTTP2Conn -> hpack.NewDecoder).  What a block's fields ARE is the
+   oracle `dec`; which blocks a decoder refuses because of the dynamic-table limit it was built with is modelled:
+   `cfg_dec limit dec` refuses a block that opens with a dynamic table size update above `limit` (hpack: "dynamic table
+   size update too large").  Well-formed traffic: the receiver of the direction announced SETTINGS_HEADER_TABLE_SIZE =
+   allowed - any 32-bit value (`negotiable`) - and every block's size updates stay <= allowed: the receiver's own decoder
+   is `cfg_dec allowed dec`.  With decoders built unlimited (hpack_unlimited = math.MaxUint32, what run_c15_conn gives the
+   model) the tracer decodes, for EVERY negotiable size and ANY oracle, exactly what the receiver decodes; so it emits the
+   receiver's frames for all byte streams and chunkings, and whole runs coincide - every theorem above holds for ANY
+   decoder, so all of them speak about the fields the receiver sees. *)
+Theorem unlimited_decodes_what_the_receiver_decodes : forall allowed dec, negotiable allowed ->
+  dec_eq (cfg_dec hpack_unlimited (cfg_dec allowed dec)) (cfg_dec allowed dec).
+Proof. exact unlimited_decodes_what_the_receiver_decodes_proof. Qed.
+Print Assumptions unlimited_decodes_what_the_receiver_decodes.
+
+Theorem tracer_frames_are_the_receivers_frames : forall allowed dec isreq chunks, negotiable allowed ->
+  snd (ft_feed (cfg_dec hpack_unlimited (cfg_dec allowed dec)) (ft_init isreq) chunks) =
+  spec_frames (cfg_dec allowed dec) isreq (concat chunks).
+Proof. exact tracer_frames_are_the_receivers_frames_proof. Qed.
+Print Assumptions tracer_frames_are_the_receivers_frames.
+
+Theorem tracer_runs_as_with_the_receivers_decoders : forall ar aw dr dw ops c, negotiable ar -> negotiable aw ->
+  conn_run (cfg_dec hpack_unlimited (cfg_dec ar dr)) (cfg_dec hpack_unlimited (cfg_dec aw dw)) c ops =
+  conn_run (cfg_dec ar dr) (cfg_dec aw dw) c ops.
+Proof. exact tracer_runs_as_with_the_receivers_decoders_proof. Qed.
+Print Assumptions tracer_runs_as_with_the_receivers_decoders.
+
+(* a limit does for every negotiable size and every oracle iff no 32-bit announcement can exceed it *)
+Theorem limit_suffices_iff : forall limit, suffices limit <-> 4294967295 <= limit.
+Proof. exact limit_suffices_iff_proof. Qed.
+Print Assumptions limit_suffices_iff.
+
+(* the limits the compiled code hands to its four decoders (client read/write, server read/write; C15_Consts.v is read
+   off the constructed connection on every run) all do, and no decoder starts below the protocol's initial 4096 *)
+Theorem configured_decoders_suffice : forall limit, In limit go_hpack_allowed -> suffices limit.
+Proof. exact configured_decoders_suffice_proof. Qed.
+Print Assumptions configured_decoders_suffice.
+
+Theorem configured_decoders_complete :
+  length go_hpack_allowed = 4%nat /\ length go_hpack_initial = 4%nat /\ Forall (fun m => 4096 <= m) go_hpack_initial.
+Proof. exact configured_decoders_complete_proof. Qed.
+Print Assumptions configured_decoders_complete.
+
+(* the protocol default 4096 as the limit is refuted: the receiver announced 8192, the sender's first block opens with
+   the size update 3f e1 3f (= 8192) before its fields; the receiver decodes it, a tracer limited to 4096 gives the
+   direction up and emits nothing, the unlimited one emits the HEADERS frame *)
+Definition ex_blk_8192 : bytes := [63; 225; 63; 130].
+Definition ex_hdrs_8192 : bytes := [0; 0; 4; 1; 5; 0; 0; 0; 1] ++ ex_blk_8192.
+Example limit_4096_refuted :
+  negotiable 8192 /\ leading_updates ex_blk_8192 = [8192] /\
+  cfg_dec 8192 ex_dec [] ex_blk_8192 = ex_dec [] ex_blk_8192 /\
+  cfg_dec 4096 (cfg_dec 8192 ex_dec) [] ex_blk_8192 = None /\
+  spec_frames (cfg_dec 8192 ex_dec) false ex_hdrs_8192 =
+    [FHeaders 1 true [(bs ":method", bs "POST"); (bs ":path", bs "/s/M"); (bs "x-test-case-name", ex_blk_8192)]] /\
+  snd (ft_trace (cfg_dec hpack_unlimited (cfg_dec 8192 ex_dec)) (ft_init false) ex_hdrs_8192) =
+    spec_frames (cfg_dec 8192 ex_dec) false ex_hdrs_8192 /\
+  snd (ft_trace (cfg_dec 4096 (cfg_dec 8192 ex_dec)) (ft_init false) ex_hdrs_8192) = [] /\
+  f_broken (fst (ft_trace (cfg_dec 4096 (cfg_dec 8192 ex_dec)) (ft_init false) ex_hdrs_8192)) = true /\
+  ~ suffices 4096.
+Proof.
+  split. { unfold negotiable. apply N.leb_le. vm_compute. reflexivity. }
+  split. { vm_compute. reflexivity. }
+  split. { vm_compute. reflexivity. }
+  split. { vm_compute. reflexivity. }
+  split. { vm_compute. reflexivity. }
+  split. { vm_compute. reflexivity. }
+  split. { vm_compute. reflexivity. }
+  split. { vm_compute. reflexivity. }
+  intros H. apply limit_suffices_iff in H. apply N.leb_le in H. vm_compute in H. discriminate H.
+Qed.
+(* both sides of `hp_allows`: sizes up to the limit pass, 2^32 (3f e1 ff ff ff 0f) does not even pass the unlimited decoder *)
+Example ex_updates :
+  leading_updates [63; 225; 31; 63; 225; 255; 3; 130] = [4096; 65536] /\
+  leading_updates [32; 63; 0; 130] = [0; 31] /\ leading_updates [130; 63; 225; 63] = [] /\
+  hp_allows hpack_unlimited [63; 224; 255; 255; 255; 15] = true /\
+  hp_allows hpack_unlimited [63; 225; 255; 255; 255; 15] = false.
 Proof. vm_compute. repeat split. Qed.
